@@ -305,7 +305,7 @@ func (f *g2lFn) assignTo(l ast.Expr, val string, define bool, ind int) []string 
 		if out, ok := f.mapAssign(x, val, ind); ok {
 			return out
 		}
-		if _, isArr := f.typeOf(x.X).Underlying().(*types.Array); !isArr {
+		if _, isArr := f.typeOf(x.X).Underlying().(*types.Array); !isArr && !f.localSliceOK(x.X) { // go2lean_string.go
 			f.fail("assignment to an element of `%s` (not an array value: slices alias their backing array)", f.src(x.X))
 		}
 		i := f.expr(x.Index)
@@ -363,12 +363,9 @@ func (f *g2lFn) assign(x *ast.AssignStmt, ind int) []string {
 		if out, ok := f.commaOk(x, define, ind); ok {
 			return out
 		}
-		c, ok := ast.Unparen(x.Rhs[0]).(*ast.CallExpr)
-		if !ok {
-			f.fail("`%s` (comma-ok forms are outside the subset)", f.src(x))
-		}
+		rhs := f.tupleRhs(x) // go2lean_string.go: a call, or a comma-ok form (type assertion, map literal)
 		t := f.fresh("t")
-		out := []string{fmt.Sprintf("%slet %s := %s", g2lInd(ind), t, f.exprNB(c))}
+		out := []string{fmt.Sprintf("%slet %s := %s", g2lInd(ind), t, rhs)}
 		for i, l := range x.Lhs {
 			out = append(out, f.assignTo(l, g2lProj(t, i, len(x.Lhs)), define, ind)...)
 		}
@@ -637,6 +634,8 @@ func (f *g2lFn) rangeStmt(x *ast.RangeStmt, ind int) []string {
 			}
 			head = append(head, f.letLine(ind+1, k, f.names[k], k.Type(), val))
 		}
+	case kString:
+		out, head = f.rangeString(x, k, v, ind) // go2lean_string.go
 	default:
 		out, head = f.rangeOther(x, t, k, v, ind)
 	}
